@@ -67,7 +67,8 @@ def C17(s, known):
 
 
 def C08(s, known):
-    s.build()
+    s.build(need_inproc=True)
+    writer_sat(s, known)      # "valid variable-length deltas": the writer refuses what the format cannot hold
     sm = s.drive("smfsanity")
     s.model("SMFSanity", workers=2, files=[(sm["dir"] + "/records.ndjson", "records.ndjson")])
     m = s.drive("c08")
@@ -111,6 +112,28 @@ def writer_mechanism(s, known):
             s.binding_selftest(m, "WriterTrace", corrupt, constants={"N": n}, expect="Conforms")
 
 
+def writer_sat(s, known):
+    """The writer's bookkeeping in machine arithmetic (WriterSat.tla): saturating sums and the refusal of deltas the
+    format cannot hold, model-checked on small words; the deviation (wrapping sums) must be caught; traces of the real
+    writer at the scale of the real words (2^26-tick units) are validated against the same actions."""
+    quick = s.tier == "quick"
+    s.model("WriterSat", workers=8, constants={"N": 2 if quick else 3, "L": 4})
+    s.model("WriterSat", cfg="WriterSatDev.cfg", workers=2, expect_violation="Faithful")
+    if not s.inproc_ok:
+        return
+    for n in (1, 3) if quick else (1, 2, 3, 5):
+        m = s.drive("sat", binary=s.vinproc, args=["-n", str(n)])
+        # what-level (verdict): the outcome of WriteTo against the length of the piece
+        s.validate(m, "WriterSatTrace", cfg="WriterSatTraceWhat.cfg", known=known, shard=max(10, len_records(m) // 4 + 1), constants={"N": n})
+        # step-level conformance with the mechanism model (drift)
+        s.validate(m, "WriterSatTrace", known=known, shard=max(10, len_records(m) // 4 + 1), constants={"N": n}, drift=True)
+        if n == 3:
+            def corrupt(rec):
+                ev = rec["events"][-1]
+                ev["outcome"] = "refused" if ev["outcome"] == "written" else "written"
+            s.binding_selftest(m, "WriterSatTrace", corrupt, constants={"N": n}, expect="Conforms")
+
+
 def play_mechanism(s, known):
     """The how-layer of playing a document: Play.tla (Opt cells) model-checked against the declarative meaning, and
     call traces of the real play package validated against the same actions."""
@@ -134,6 +157,7 @@ def _write(prop, driver, expl):
         s.model("TheoryMC", workers=4)
         if prop in ("C02", "C06"):
             writer_mechanism(s, known)
+            writer_sat(s, known)
         if prop in ("C01", "C07"):
             play_mechanism(s, known)
         m = s.drive(driver)
